@@ -34,6 +34,13 @@ def bases(ctx, tier):
     t4 = dict(T); t4["notes.txt"] = b"excluded: the one at the root"; t4["d/notes.txt"] = b"sealed"; t4["d/e/notes.txt"] = b"sealed as well"
     t4["d/skip"] = DIR; t4["d/skip/x.txt"] = b"excluded folder d/skip"; t4["emp/skip"] = DIR; t4["emp/skip/y.txt"] = b"sealed: another folder called skip"
     B["anchored-pattern"] = (ops.build(ctx, t4, [c("", ["xxh64"], i=["/notes.txt", "d/skip/"])], expect=[0]), True)
+    # symbolic links to files are entries of the tree like any other (hashed through the link, bound under the link's own name)
+    t5 = dict(T); t5["lnk to c"] = T["d/c.txt"]; t5["d/e/back link"] = T["d/c.txt"]
+    sub.LINKS = dict(LINKS)
+    try:
+        B["with-links"] = (ops.build(ctx, t5, [c("", ["xxh64"])], expect=[0]), True)
+    finally:
+        sub.LINKS = {}
     B["n-generation-after-normal"] = (ops.build(ctx, T, [c("", ["xxh64"]), c("", ["xxh64"], n=True)], expect=[0, 0]), True)
     B["n-generation-before-normal"] = (ops.build(ctx, T, [c("", ["xxh64"], n=True), c("", ["xxh64"])], expect=[0, 0]), True)
     B["nested-under-n-only-root"] = (ops.build(ctx, T, [c("d", ["md5"]), c("", ["xxh64"], n=True)], expect=[0, 0]), False)
@@ -48,6 +55,9 @@ def bases(ctx, tier):
         B["nested3"] = (ops.build(ctx, t3, [c("d/e/g", ["c4"]), c("d/e", ["sha1"]), c("d", ["md5"]), c("", ["xxh64"])],
                                   expect=[0, 0, 0, 0]), True)
     return B
+
+
+LINKS = {"lnk to c": "d/c.txt", "d/e/back link": "../c.txt"}
 
 
 def mutations(tree):
@@ -68,7 +78,8 @@ def mutations(tree):
             if not any(q.startswith(p + "/") for q in med):
                 out.append((f"rmdir {p}", ["rm", p]))
         else:
-            out.append((f"change {p}", ["write", p, cont + b"!"]))
+            if not (p in LINKS and "lnk to c" in med):   # (a link has no content of its own to change; changing its target is the change of d/c.txt)
+                out.append((f"change {p}", ["write", p, cont + b"!"]))
             out.append((f"remove {p}", ["rm", p]))
     if "keep.log" in med:
         out.append(("add new.log", ["write", "new.log", b"new file whose name matches the nested history's pattern"]))
@@ -91,7 +102,11 @@ def eval_case(ctx, case):
     for label, e in case["muts"]:
         t = ops.edit(t, e)
     hopt = case.get("h")
-    res, post = ops.run_cmd(ctx, t, ["verify", {"root": "", "dh": True, "h": hopt, "spell": case.get("spell")}], sub.NOW0 + 500)
+    sub.LINKS = dict(LINKS) if case["name"] == "with-links" else {}
+    try:
+        res, post = ops.run_cmd(ctx, t, ["verify", {"root": "", "dh": True, "h": hopt, "spell": case.get("spell")}], sub.NOW0 + 500)
+    finally:
+        sub.LINKS = {}
     v = []
     kind_of_base = ("n-generation" if case["name"].startswith("n-generation") else "nested" if case["name"].startswith("nested")
                     else "flat-no-subdirs" if case["name"] == "flat-no-subdirs" else "plain")
@@ -147,6 +162,8 @@ def main(tier, seed):
     cases, states = [], set()
     for name, (tree, has) in B.items():
         singles = mutations(tree)
+        if name == "with-links":   # (a link whose target is gone is another matter: the tool cannot hash it)
+            singles = [m for m in singles if not (m[1][0] in ("mv", "rm") and ("d/c.txt" == m[1][1] or "d/c.txt".startswith(m[1][1] + "/")))]
         sets = [[]] + [[m] for m in singles]
         if tier == "thorough":
             sets += [list(c) for c in itertools.combinations(singles, 2)]
